@@ -42,7 +42,7 @@ OUT_JSON = VERIF / ".scratch" / "units" / "dump.json"
 MODELLED = ["__new__", "__init__", "__mul__", "__rmul__", "__truediv__", "__rtruediv__", "__add__", "__radd__",
             "__sub__", "__rsub__", "__eq__", "__ne__", "__lt__", "__le__", "__gt__", "__ge__", "__neg__",
             "__abs__", "__pos__", "__str__", "__repr__", "__float__", "as_unit", "_val", "asSI", "sisig", "siunit",
-            "displayvalue", "si", "unit"]
+            "displayvalue", "si", "unit", "__floor__", "__ceil__", "__trunc__", "__round__"]
 
 
 # ------------------------------------------------------------------ Coq literals
